@@ -246,6 +246,7 @@ func (e *Exec) callValueNoEvent(c *ast.CallExpr, fv Val, args []Val, resT types.
 	} else {
 		e.warn("unspecified external function %s: results havoc'd, no heap effect assumed (A-EXT)", key)
 	}
+	e.havocPointerArgs(c, args)
 	e.havocBoxed()
 	e.invokeEscaped()
 	return e.havocResult(fn.Name(), resT)
@@ -773,6 +774,9 @@ func (e *Exec) intrinsic(fn *types.Func, f FuncV, args []Val, c *ast.CallExpr, r
 	case "sync":
 		switch fn.Name() {
 		case "Lock", "Unlock", "RLock", "RUnlock", "Add", "Done", "Wait", "Do", "Broadcast", "Signal":
+			if fn.Name() == "Lock" || fn.Name() == "RLock" || fn.Name() == "Unlock" {
+				e.lockInvariant(c, fn.Name())
+			}
 			if fn.Name() == "Do" && len(args) == 1 {
 				// sync.Once.Do(f): run f nondeterministically (first call or not)
 				if lit, ok := args[0].(FuncV); ok {
@@ -1028,4 +1032,78 @@ func replaceSymbol(t, sym, by string) string {
 		i = end
 	}
 	return b.String()
+}
+
+// lockInvariant implements the monitor rule for lock fields with a declared invariant
+// (`lockinv Type.field(x *Type) = expr`): assumed when the lock is taken, proved when a write lock is released.
+func (e *Exec) lockInvariant(c *ast.CallExpr, op string) {
+	sel, ok := ast.Unparen(c.Fun).(*ast.SelectorExpr)
+	if !ok {
+		return
+	}
+	fsel, ok := ast.Unparen(sel.X).(*ast.SelectorExpr) // owner.field
+	if !ok {
+		return
+	}
+	ot := e.typeOf(fsel.X)
+	n, ok := derefNamed(ot)
+	if !ok || n.Obj().Pkg() == nil {
+		return
+	}
+	sf := e.g.specs[n.Obj().Pkg().Path()]
+	if sf == nil || sf.LockInvs == nil {
+		return
+	}
+	inv := sf.LockInvs[n.Obj().Name()+"."+fsel.Sel.Name]
+	if inv == nil {
+		return
+	}
+	owner := e.ev(fsel.X)
+	env := &SpecEnv{cur: e.st, old: e.old, names: map[string]boundVar{inv.Params[0].Name: {owner, ot}}, pkg: e.g.pkgs[n.Obj().Pkg().Path()], sf: sf}
+	t := e.specBool(inv.Body, env)
+	if op == "Unlock" {
+		e.lockSeq++
+		e.oblige(fmt.Sprintf("lock-inv %s.%s@unlock#%d", n.Obj().Name(), fsel.Sel.Name, e.lockSeq), "assert", "monitor invariant re-established at Unlock: "+inv.Body.Text, t)
+		return
+	}
+	e.assume(t)
+	e.trusted["monitor invariant of "+n.Obj().Name()+"."+fsel.Sel.Name+" assumed at Lock (proved at every Unlock of the functions under contract)"] = true
+}
+
+// havocPointerArgs: an unspecified callee may write through pointer arguments: all fields of struct objects whose
+// address is passed (static type pointer-to-struct at the call site) are forgotten.
+func (e *Exec) havocPointerArgs(c *ast.CallExpr, args []Val) {
+	sets := map[string]*locSet{}
+	add := func(key, ref string) {
+		ls := sets[key]
+		if ls == nil {
+			ls = &locSet{}
+			sets[key] = ls
+		}
+		ls.refs = append(ls.refs, ref)
+	}
+	for i, a := range c.Args {
+		if i >= len(args) {
+			break
+		}
+		t := e.typeOf(a)
+		if t == nil {
+			continue
+		}
+		pt, ok := t.Underlying().(*types.Pointer)
+		if !ok {
+			continue
+		}
+		sv, ok := args[i].(SV)
+		if !ok {
+			continue
+		}
+		if kindOf(pt.Elem()) == kStruct {
+			e.warn("unspecified callee %s may write through pointer argument %d (%s): its fields are havoc'd", exprText(c.Fun), i, types.TypeString(pt.Elem(), nil))
+			e.addStructLocs(sv.T, pt.Elem(), add)
+		}
+	}
+	if len(sets) > 0 {
+		e.havocLocs(sets)
+	}
 }
